@@ -1,1 +1,36 @@
-(* Props/C01.v -- stub, to be filled in *)
+(* Props/C01.v -- property theorems only: Theorem / exact lemma / Check (pins the statement) / Print Assumptions.
+   Conventions: wf m = (length (buf m) = rows m * cols m); ent m i j = nth (i * cols m + j) (buf m) zero;
+   mvprod n X v r = sum_n n (fun k => X r k * v k), so  "M x = b"  reads
+   forall i < rows M, mvprod (rows M) (ent M) (fun k => nth k x zero) i = nth i b zero. *)
+From Coq Require Import List Arith ZArith.
+From OV Require Import Base.Panic Base.Arith Base.Flat Model.Vector Model.Matrix Model.Solve Inst.QcInst
+  Proofs.Matrix Proofs.SolveBase Proofs.SolveBack Proofs.SolveGauss Proofs.Solve.
+Import ListNotations.
+
+(* C01, Gaussian elimination half: whatever solve_basic returns solves the system (any field, any size). *)
+Theorem solve_basic_sound : forall (A : Arith), FieldLaws A -> forall (M : matrix A) (b x : list A),
+  wf M -> rows M = cols M -> length b = rows M -> solve_basic M b = Ok x ->
+  length x = rows M /\
+  forall i, i < rows M -> mvprod (rows M) (ent M) (fun k => nth k x zero) i = nth i b zero.
+Proof. intros A FL M b x. exact (solve_basic_sound_lemma FL M b x). Qed.
+Check solve_basic_sound : forall (A : Arith), FieldLaws A -> forall (M : matrix A) (b x : list A),
+  wf M -> rows M = cols M -> length b = rows M -> solve_basic M b = Ok x ->
+  length x = rows M /\
+  forall i, i < rows M -> mvprod (rows M) (ent M) (fun k => nth k x zero) i = nth i b zero.
+Print Assumptions solve_basic_sound.
+
+(* non-vacuity: a 3x3 rational system with a zero leading entry; the pivot search exchanges rows at
+   step 0 (row 2) and again at step 1 (row 2); solve_basic returns [1;1;1]  (corpus/C01/two_exchanges_3x3.json) *)
+Definition M3 : matrix AQ := @mkM AQ [q 0 1; q 2 1; q 2 1;  q 1 1; q 1 1; q 1 1;  q 2 1; q 4 1; q 1 1] 3 3.
+Definition b3 : list AQ := [q 4 1; q 3 1; q 7 1].
+Example solve_basic_sound_nonvacuous :
+  wf M3 /\ rows M3 = cols M3 /\ length b3 = rows M3 /\
+  (exists x, solve_basic M3 b3 = Ok x) /\
+  fl_res (fl_list flat_q) (solve_basic M3 b3) = [0; 3;  2; 1; 1;  2; 1; 1;  2; 1; 1]%Z /\
+  max_abs_in_column M3 0 0 = Ok 2 /\
+  (exists s, gauss_body 0 (M3, b3) = Ok s /\ max_abs_in_column (fst s) 1 1 = Ok 2).
+Proof.
+  repeat split; try reflexivity.
+  - eexists. vm_compute. reflexivity.
+  - eexists. split; vm_compute; reflexivity.
+Qed.
